@@ -5,11 +5,11 @@ func init() {
 		ID:    "C12",
 		Title: "Downstream round trips are bounded by plan shape, not by result size",
 		Kernels: []Kernel{
-			{Name: "dedup", Pkg: "executor", Files: []string{"executor/c12.go"}, Entry: "VerifDedup", Mode: "seq",
+			{Name: "dedup", Pkg: "executor", Files: []string{"executor/c12.go"}, Entry: "VerifDedup", Mode: "seq", Native: true,
 				Quick: map[string]int{"kmax": 3}, Thorough: map[string]int{"kmax": 4},
 				Reach:     []string{"skipped by hint", "some lookups de-duplicated", "nothing to de-duplicate"},
 				Functions: []string{"executor.(*DepthExecutor).executeRequests", "executor.(*DepthExecutor).getVariables", "executor.(*DepthExecutor).isNeedToQuery", "executor.(*DepthExecutor).setIMap", "executor.indexMap.Set", "executor.indexMap.GetSameIndexes", "executor.(*CachedPointDataExtractor).Extract", "executor.copyMap"}},
-			{Name: "roundtrips", Pkg: ".", Files: []string{"root/fed.go", "root/c01.go", "root/c02.go"}, Entry: "VerifRoundTrips", Mode: "seq",
+			{Name: "roundtrips", Pkg: ".", Files: []string{"root/fed.go", "root/c01.go", "root/c02.go"}, Entry: "VerifRoundTrips", Mode: "seq", Native: true,
 				Quick: map[string]int{"k": 2}, Thorough: map[string]int{"k": 4},
 				Reach: []string{"round trips counted"}, Functions: pipelineFns},
 		},
